@@ -11,7 +11,7 @@ ASSUME = ["Rust std Path/OsStr semantics as modelled in S4V/Model/Path.lean (val
 def check(ctx):
     ok_gen = core.step_gen(ctx, ['PathTables'])
     prove = core.step_prove(ctx, 'S4V.Props.C16') if ok_gen else {'module': 'S4V.Props.C16', 'obligations': 0, 'discharged': 0}
-    ok_drv = core.step_drv(ctx) if ok_gen else False
+    ok_drv = core.step_drv(ctx) if (ok_gen or ctx.search_mode) else False
     ok_impl = core.step_build_impl(ctx, need_s4=False)
     corr = []
     if ok_drv and ok_impl:
